@@ -13,7 +13,8 @@ THEOREMS = {
     'C07': ['C07_new_returns_the_variant_with_that_discriminant', 'C07_err_when_no_variant', 'C07_raw_then_new',
             'C07_new_then_raw', 'C07_never_panics', 'C10_no_variant_is_unrepresentable', 'C07_real_match_is_the_model_conversion'],
     'C08': ['C01_getter_exact', 'C02_setter_exact', 'C01_generator_model_every_getter', 'C02_generator_model_every_setter'],
-    'C09': ['C09_accept_iff_valid', 'C09_field_accept_iff_valid'],
+    'C09': ['C09_accept_iff_valid', 'C09_field_accept_iff_valid', 'C09_argument_automaton_parses_well_formed_attributes',
+            'C09_accepted_fields_have_a_parsable_attribute'],
     'C10': ['C10_enum_accept_iff_valid', 'C10_exhaustive_claims_are_sound', 'C10_no_variant_is_unrepresentable'],
     'C11': ['C11_no_state_above_bit_N', 'C11_rewrap_is_identity_on_reachable_states', 'C12_real_code_any_history',
             'C12_run_obligations_give_setters_ok', 'C02_setter_exact', 'C06_raw_value_exact', 'C06_new_with_raw_value_exact', 'C12_generator_model_any_history', 'C02_generator_model_every_setter'],
